@@ -356,6 +356,10 @@ func targetFile(k *listKind, targets []string) string {
 		} else {
 			body = head + "\n" + strings.Join(els, "\n") + "\n" + strings.Join(k.Tail, "\n")
 		}
+		if k.Name == "results-unnamed" && len(els) == 1 && i%2 == 0 {
+			// a single unnamed result without its optional parentheses: the same declaration
+			body = strings.Replace(body, "() ("+els[0]+") {", "() "+els[0]+" {", 1)
+		}
 		sb.WriteString(k.Wrap(i, body))
 	}
 	if inFunc {
